@@ -219,7 +219,7 @@ class TextFileStorage(Storage[str]):
                 while self._waiting_for.value < len(self) and self._index[self._waiting_for.value] is not None:
                     self._waiting_for.value += 1
 
-        print(data, file=self._file, flush=True)
+            print(data, file=self._file, flush=True)
 
     def __getitem__(self, global_identifier: int) -> str:
         """
@@ -261,7 +261,7 @@ class TextFileStorage(Storage[str]):
         """
 
         with self._storage_lock:
-            for i in range(len(self)):
+            for i in range(len(self._index)):
                 try:
                     yield self[i]
                 except IndexError:
